@@ -410,8 +410,11 @@ class EvolvableMultiInput(EvolvableModule):
         # Extract features from non-vector subspaces
         extracted_features = OrderedDict()
         if self.extracted_features_dim > 0:
-            for key in x.keys():
-                if key in self.feature_net.keys():
+            # walk the feature extractors in the order they were built in (the order of the
+            # observation space), not in the key order of the observation that was passed in: the
+            # layout of the concatenated features must not depend on the latter
+            for key in self.feature_net.keys():
+                if key in x.keys():
                     extracted_features[key] = self.feature_net[key](x[key])
 
         # Extract raw features from vector spaces
